@@ -1151,6 +1151,10 @@ def c19_jobs(tier):
         dict(j("w3-size24-O2", "rel", bmax=b - 1), opts=dict(workers=3, size=24, mode="sched")),
         dict(j("w2-malloc", bmax=b), opts=dict(workers=2, size=24, mode="sched", alloc="malloc")),
         dict(j("tsan-free-running", "tsan", bmax=0, workers=1), opts=dict(workers=3, size=4096, mode="free")),
+        # every trial writes to the log when it is through; the last element's trial gives up with cmb_logger_error, which
+        # ends its worker thread only: everybody else finishes and the experiment returns (free-running, real threads)
+        dict(j("free-running-error-trial", bmax=0, workers=1), opts=dict(workers=3, size=4096, mode="free", errtrial=1),
+             run_timeout=60),
     ]
     return jobs
 
